@@ -422,3 +422,35 @@ def deep_chain_lines(rng: random.Random, n_extra: int = 40):
         t = rand_tag(rng, rng.randint(2, 5))
         lines.append(f"render_tag {enode(t)} {rng.choice(BOUNDARY_LEVELS)} {es(rng.choice([chr(10), '', '<!>']))}")
     return lines
+
+
+# process history: the same characters in the other role first ---------------------------------------------
+_TWIN = {"text": "html", "html": "text", "p": "h", "h": "p", "as": "ah", "ah": "as"}
+HISTORY_OPS = ("render_tag", "render_tag_n", "render_list", "render_tag_via", "attr_render", "ahist", "chist", "consolidate",
+               "document_render", "doc_render", "render_full_list", "render_full_tag", "tagify_list", "tagify_tag", "hexpr",
+               "head_content", "ser", "jsonmode", "textdoc", "c08_views", "deps_render")
+
+
+def twin(line: str) -> str:
+    """the same line with every plain string turned into trusted markup and vice versa (text <-> HTML() leaves,
+    plain <-> HTML() attribute values); string tokens are hexadecimal and cannot collide with the kind tokens"""
+    return " ".join(_TWIN.get(t, t) for t in line.split(" "))
+
+
+def history_lines(rng: random.Random, lines: list[str], k: int) -> list[str]:
+    """`after <history> ;; <line>`: a sample of the given lines, each evaluated after (a) its twin, (b) its twin twice
+    and another line, in the same process — state left behind by earlier calls (caches keyed on equal-but-different
+    values, module-level memos) then reaches the line's answer; the model answers for the line alone"""
+    cand = [l for l in lines if l.split(" ", 1)[0] in HISTORY_OPS and len(l) < 4000]
+    if not cand:
+        return []
+    out = []
+    for l in rng.sample(cand, min(k, len(cand))):
+        tw = twin(l)
+        if tw == l:
+            continue
+        if rng.random() < 0.7:
+            out.append(f"after {tw} ;; {l}")
+        else:
+            out.append(f"after {tw} ;; {rng.choice(cand)} ;; {tw} ;; {l}")
+    return out
